@@ -208,6 +208,29 @@ where
     Ok(())
 }
 
+/// Run `reverse_proxy::listen` over the real HTTP/1.1 codec on `io`, as `Core::on_new_tls_connection`
+/// does for the reverse-proxy channel, with the codec's wind-down traced (`WindBegin` / `WindEnd`)
+pub async fn serve_reverse_proxy<IO>(
+    core: &crate::core::Core,
+    io: IO,
+    peer: SocketAddr,
+    server_name: String,
+) -> io::Result<()>
+where
+    IO: AsyncRead + AsyncWrite + Send + Unpin + 'static,
+{
+    let context = core.verif_context();
+    let id = log_utils::IdChain::from(log_utils::IdItem::new(log_utils::CLIENT_ID_FMT, 0));
+    let codec = crate::core::Core::verif_make_tcp_http_codec(
+        crate::tls_demultiplexer::Protocol::Http1,
+        context.settings.clone(),
+        WithPeer { io, peer },
+        id.clone(),
+    )?;
+    crate::reverse_proxy::listen(context, Box::new(WindTraced(codec)), server_name, id).await;
+    Ok(())
+}
+
 /// A codec whose `graceful_shutdown` is bracketed by the events `WindBegin` / `WindEnd`
 /// (participant of the calling task, protocol, result). Everything is delegated.
 struct WindTraced(Box<dyn HttpCodec>);
